@@ -1,3 +1,4 @@
 import Gen.Tables
 import Gen.Arith
 import Gen.Helpers
+import Gen.Sigs
